@@ -267,6 +267,23 @@ def main():
                                    dict(kind="race", failing_input=True, log=hout[-6000:], note="go test -race report; rerun with the recorded seed and tier")))
             else:
                 raise Fail("harness failed (exit %d):\n%s" % (rc, hout[-4000:]))
+        race_extra = None
+        if rule.get("race_extra"):
+            # a second pass of dedicated tests under the race detector (they write no case stream)
+            env2 = dict(GOENV, VERIF_SEED=str(seed), VERIF_TIER=tier, VERIF_OUT=os.path.join(WORK, "race_" + pid), CGO_ENABLED="1")
+            t1 = time.time()
+            rc3, rout = sh(["go", "test", "-race", "-tags", "verif", "-run", "^%s$" % rule["race_extra"], "-count=1", "-timeout", "30m", "."],
+                           cwd=HARNESS, env=env2, timeout=2400)
+            race_extra = dict(test=rule["race_extra"], secs=round(time.time() - t1, 1), ok=(rc3 == 0))
+            if rc3 != 0:
+                if "DATA RACE" in rout:
+                    violations.append(("race", "the race detector reported conflicting accesses in %s" % rule["race_extra"],
+                                       dict(kind="race", failing_input=True, log=rout[-6000:], note="go test -race -run %s in /verif/harness" % rule["race_extra"])))
+                elif "CONCURRENT-MISMATCH" in rout:
+                    violations.append(("race", "a concurrent call returned another result than the same call alone: " + rout[rout.find("CONCURRENT-MISMATCH"):][:400],
+                                       dict(kind="concurrent-mismatch", failing_input=True, log=rout[-6000:], note="go test -race -run %s in /verif/harness" % rule["race_extra"])))
+                else:
+                    raise Fail("race pass failed (exit %d):\n%s" % (rc3, rout[-4000:]))
         run_driver(pid)
         xc = None
         if not alt and pid in COQEVAL_PROPS:
@@ -326,6 +343,8 @@ def main():
         coqc_seconds=round(pr["secs"], 2),
     ))
     cov["checked_tree"] = repo_fingerprint(pid)
+    if race_extra:
+        cov["race_pass"] = race_extra
     if xc is not None:
         cov["coq_cross_check"] = dict(xc, what="sample of this run's cases evaluated inside Coq by vm_compute (coq/Eval.v) and compared with the extracted OCaml driver's answers")
     if chk is not None:
